@@ -207,11 +207,13 @@ package syncx
 //@ func NewSingleFlight
 //@   property C07
 //@   ghost at returned#0: running[ret] = zeros(running[ret])
-//@   ensures  result != nil
+//@   ensures  result != nil && fresh(result)
 //@   allocates
+// every manager has its own flight group: creations in different managers never share a flight (a shared group would hand
+// manager B the resource created for manager A and register nothing in B)
 //@ func NewResourceManager
 //@   property C07
-//@   ensures  fresh(result)
+//@   ensures  fresh(result) && result.singleFlight != nil && fresh(result.singleFlight)
 //@   allocates
 //@ func (manager *ResourceManager) Close
 //@   property C07
